@@ -139,6 +139,22 @@ def iso_equal(got: str, want: datetime.datetime, same_offset: bool) -> bool:
     return d == want and (not same_offset or d.utcoffset() == want.utcoffset())
 
 
+def nfc_mail(c):
+    """Canonical-equivalence view of an extracted message: mailparser (the .eml parser) returns headers and part of the
+    bodies in Unicode normalisation form C (unicodedata.normalize('NFC', ...) in its utils), e.g. U+FA1E -> U+7FBD,
+    U+212B -> U+00C5, e + U+0301 -> U+00E9.  Canonically equivalent text is the same text; look-alike but NOT equivalent
+    characters (U+301C vs U+FF5E, ...) stay different under NFC."""
+    import unicodedata
+    n = lambda s_: unicodedata.normalize("NFC", s_) if isinstance(s_, str) else s_
+    out = dict(c)
+    for k in ("subject", "plain", "html", "msgid"):
+        out[k] = n(c[k])
+    out["from"] = tuple(n(x) for x in c["from"])
+    for k in ("to", "cc"):
+        out[k] = [tuple(n(x) for x in a) for a in c[k]]
+    return out
+
+
 def nl(s):
     return (s or "").replace("\r\n", "\n").strip()
 
@@ -168,6 +184,17 @@ def check_message(ctx, fmt, spec, raw, m, same_offset, atts=True, quoted=False):
                                     "message_b64": base64.b64encode(raw).decode("ascii"), "quoted": quoted,
                                     "spec": {k: v for k, v in spec.items() if k not in ("attachments",)}}
     c = canon_mail(m)
+    if fmt == "eml":
+        # .eml text is compared up to canonical equivalence (see nfc_mail); .mbox and .msg are compared code point by code point
+        import unicodedata
+        n_ = lambda s_: unicodedata.normalize("NFC", s_) if isinstance(s_, str) else s_
+        # ... subject, message id and bodies only ("decoded"); sender / recipient display names and addresses are "exact":
+        # code point by code point on every path
+        c2 = dict(c, **{k: n_(c[k]) for k in ("subject", "plain", "html", "msgid")})
+        if c2 != c:
+            ctx.count("eml:text-returned-in-NFC")
+        c = c2
+        spec = dict(spec, subject=n_(spec["subject"]), plain=n_(spec["plain"]), html=n_(spec["html"]))
     if c["subject"] != spec["subject"].strip():
         folded = header_is_folded(raw, b"Subject")
         key = f"{fmt}:subject:folded-header" if folded else f"{fmt}:subject:{tag}"
@@ -177,10 +204,14 @@ def check_message(ctx, fmt, spec, raw, m, same_offset, atts=True, quoted=False):
         want = spec[field] if field != "from" else spec["from"]
         got = c[field]
         if (list(got) if field != "from" else tuple(got)) != (list(want) if field != "from" else tuple(want)):
+            import unicodedata
+            nf = lambda v: unicodedata.normalize("NFC", repr(list(v) if field != "from" else tuple(v)))
+            only_nfc = fmt == "eml" and nf(got) == nf(want)
             folded = header_is_folded(raw, hname)
-            key = f"{fmt}:address:folded-header" if folded else f"{fmt}:{field}:{tag}"
+            key = "eml:display-name:nfc-normalised" if only_nfc else f"{fmt}:address:folded-header" if folded else f"{fmt}:{field}:{tag}"
             ctx.finding(key, f"{fmt}: {field} addresses {got!r} instead of {want!r}"
-                        + (f" ({hname.decode()} header is folded)" if folded else ""), rep(field, got, want))
+                        + (" (canonically equivalent: the display name came back in Unicode NFC)" if only_nfc else
+                           f" ({hname.decode()} header is folded)" if folded else ""), rep(field, got, want))
     if spec.get("date") is None:
         if c["date"] != "":
             ctx.finding(f"{fmt}:date:absent", f"{fmt}: date {c['date']!r} for a message without Date header", rep("date", c["date"], ""))
@@ -697,7 +728,7 @@ def run(ctx):
             # .eml and .mbox parsers against each other on what both are expected to deliver
             e1, err1 = run_eml(raw)
             if e1 and not has_from_line(raw):
-                a, b = canon_mail(e1[0]), canon_mail(m)
+                a, b = nfc_mail(canon_mail(e1[0])), nfc_mail(canon_mail(m))      # up to canonical equivalence
                 for f in ("subject", "from", "to", "cc", "msgid"):
                     if a[f] != b[f]:
                         folded = header_is_folded(raw, {"subject": b"Subject", "from": b"From", "to": b"To", "cc": b"Cc"}.get(f, b"Message-ID"))
@@ -709,6 +740,25 @@ def run(ctx):
                         fw = bool(sp.get("forwarded")) and f == "plain" and not nl(b[f])
                         ctx.finding("eml:body:iso-2022-jp-not-decoded" if jp else "body-from-attached-message" if fw else f"eml-vs-mbox:{f}:{sp['charset']}/{sp['api']}",
                                     f".eml and .mbox disagree on the {f} body", {"message": raw, "field": f, "eml": a[f], "mbox": b[f]})
+
+    # display names that are not in Unicode NFC (decomposed accent, ANGSTROM SIGN, CJK compatibility ideograph): exact on every path
+    nm_ = "Ame\u0301lie \u212bngstro\u0308m \ufa1e"
+    nfm = email.message.EmailMessage()
+    nfm["Subject"], nfm["Date"] = "names", "Mon, 01 Jan 2024 12:00:00 +0000"
+    nfm["From"] = G._modern_addr((nm_, "amelie@x.test"))
+    nfm["To"] = G._modern_addr((nm_, "to@x.test"))
+    nfm.set_content("body")
+    rawn = nfm.as_bytes()
+    ctx.case(("non-nfc-names", rawn), True, kind="special:non-nfc-display-name")
+    for fmt_, res_ in (("eml", run_eml(rawn)[0]), ("mbox", run_mbox(G.mbox_bytes([rawn], b"\n", "mboxrd"))[0])):
+        if res_:
+            gotn = (res_[0].from_email.name, [a.name for a in res_[0].to_emails])
+            if gotn != (nm_, [nm_]):
+                import unicodedata
+                eq = unicodedata.normalize("NFC", repr(gotn)) == unicodedata.normalize("NFC", repr((nm_, [nm_])))
+                ctx.finding("eml:display-name:nfc-normalised" if fmt_ == "eml" and eq else f"{fmt_}:display-name:non-nfc",
+                            f"{fmt_}: display name {nm_!r} comes back as {gotn!r}" + (" (Unicode NFC applied)" if eq else ""),
+                            {"message_b64": base64.b64encode(rawn).decode("ascii"), "format": fmt_, "field": "from", "got": gotn, "want": nm_})
 
     # two inline text/plain parts: the two parsers must agree (they do not: first part vs all parts)
     two = email.message.EmailMessage()
@@ -1134,6 +1184,8 @@ META = {
                   "the two fixtures plus generated files with root-level property streams (subject, transport headers, message id, "
                   "body/HTML, DisplayTo). Outside the machinery: .msg attachments, recipient tables and the DeliverTime property "
                   "(nested storages / fixed-size property entries are not produced by the CFB writer: fixtures only); all decoding "
-                  "done inside mailparser (.eml) and msg_parser; re.IGNORECASE of the HTML hint regex beyond ASCII case folding; MMDF "
+                  "done inside mailparser (.eml) and msg_parser (mailparser returns headers and some bodies in Unicode NFC: .eml text is "
+                  "compared up to canonical equivalence - subject, message id and bodies only; display names and addresses are compared code "
+                  "point by code point on every path (known finding eml:display-name:nfc-normalised) - .mbox/.msg code point by code point; counted as eml:text-returned-in-NFC); re.IGNORECASE of the HTML hint regex beyond ASCII case folding; MMDF "
                   "mailboxes are not the mbox format (theorem C16_mbox_mmdf_delimiters_kept_refuted states what happens to them).",
 }
